@@ -10,6 +10,9 @@ from ..core import HarnessError
 ID = 'C12'
 TITLE = 'df_fillna / nona fill or drop exactly the missing cells'
 LEVEL = 'exploration'
+TECHNIQUE = 'runtime monitoring: pure-Python fill/drop reference on lists with unique ids; exhaustive NaN masks of short vectors'
+LEVEL_TEXT = 'Thorough: all 2^n masks for n<=10 x every single method x limit in {None,1,2,3} (exhaustive for that sub-domain) plus random vectors/frames and method lists. A check says held on K observed executions, never verified.'
+LEVEL_NOTE = 'Trusted: the list model; numeric constants with limit=None only; axis not varied.'
 RULE = ('a case = (NaN mask, container kind in {Series, 1-d array, DataFrame, 2-d array}, method or method list, limit); quick: all masks of length <=6 plus random vectors to length 40 and '
         'frames to 8x3; thorough: ALL 2^n masks for every n<=10 x all methods x limit in {None,1,2,3}; non-trivial = mask with an interior NaN run and a leading or trailing NaN run, '
         'or an all-NaN row in a frame with a partly-NaN row; distinct = canonical hash')
